@@ -134,6 +134,7 @@ func c13extra(p *Program, r *Report, scope []*ssa.Function, inScope map[*ssa.Fun
 						}
 					}
 					r.Add("C13.fresh", FnName(fn), "the index a query fills is allocated by that call", x.Pos(), fresh, "origin of the map: "+src.String())
+					gcsIndexComplete(p, r, fn, x)
 				}
 			}
 		}
@@ -149,6 +150,7 @@ func c13extra(p *Program, r *Report, scope []*ssa.Function, inScope map[*ssa.Fun
 		r.Unresolved("C13.fresh", "index map of the hash-based strategy")
 	}
 	r.Floor("C13.fresh", 1)
+	r.Floor("C13.index", 2)
 
 	gcsWriterRule(p, r, "C13.writer")
 	gcsQueryRule(p, r, NewEffects(p), "C13.frozen")
@@ -328,4 +330,127 @@ func gcsWriterRule(p *Program, r *Report, rule string) {
 	}
 	r.Add(rule, FnName(bld), what, one.Pos(), okW, how)
 	r.Floor(rule, 1)
+}
+
+// gcsIndexComplete (round 5, C13-agent5-m3): the hash-based strategy decides from an index of the filter's values; a
+// member is missed if its value never enters the index.  Structurally: the loop that fills the index is left only
+// because the reader failed (EOF or error) — never because of the values read so far — and every successful read
+// reaches the insertion before the next iteration.  A range-limited index (stop at the largest query value, skip
+// values below the smallest) is refused by this clause even when it is correct; it fails closed.
+func gcsIndexComplete(p *Program, r *Report, fn *ssa.Function, mu *ssa.MapUpdate) {
+	B := mu.Block()
+	var h *ssa.BasicBlock
+	for _, c := range fn.Blocks {
+		if isLoopHeader(c) && c.Dominates(B) && reachableFrom(B, nil)[c] {
+			if h == nil || h.Dominates(c) {
+				h = c // innermost
+			}
+		}
+	}
+	fname := FnName(fn)
+	if h == nil {
+		r.Undecided("C13.index", fname, "the index is filled by a loop over the whole filter", mu.Pos(), "the insertion is not inside a loop")
+		return
+	}
+	inLoop := map[*ssa.BasicBlock]bool{}
+	for _, c := range fn.Blocks {
+		if h.Dominates(c) && reachableFrom(c, nil)[h] {
+			inLoop[c] = true
+		}
+	}
+	isReaderErr := func(v ssa.Value) bool {
+		ex, ok := v.(*ssa.Extract)
+		if !ok {
+			return false
+		}
+		call, ok := ex.Tuple.(*ssa.Call)
+		if !ok || !inLoop[call.Block()] {
+			return false
+		}
+		return types.Identical(ex.Type(), types.Universe.Lookup("error").Type())
+	}
+	errCond := func(v ssa.Value) bool {
+		for {
+			if u, ok := v.(*ssa.UnOp); ok && u.Op == token.NOT {
+				v = u.X
+				continue
+			}
+			break
+		}
+		switch x := v.(type) {
+		case *ssa.BinOp:
+			if x.Op != token.EQL && x.Op != token.NEQ {
+				return false
+			}
+			other := x.Y
+			if !isReaderErr(x.X) {
+				if !isReaderErr(x.Y) {
+					return false
+				}
+				other = x.X
+			}
+			if isNilConst(other) {
+				return true
+			}
+			if ld, ok := other.(*ssa.UnOp); ok && ld.Op == token.MUL {
+				_, isG := ld.X.(*ssa.Global)
+				return isG
+			}
+			return false
+		case *ssa.Call:
+			if staticCalleeIs(&x.Call, "errors.Is") && len(x.Call.Args) == 2 && isReaderErr(x.Call.Args[0]) {
+				return true
+			}
+		}
+		return false
+	}
+	// (a) exits
+	okExit, howExit := true, "every exit of the filling loop is decided by the reader's error result alone"
+	for c := range inLoop {
+		for _, s := range c.Succs {
+			if inLoop[s] {
+				continue
+			}
+			iff, ok := lastInstr(c).(*ssa.If)
+			if !ok || !errCond(iff.Cond) {
+				okExit = false
+				cond := "an unconditional jump"
+				if ok {
+					cond = exprString(iff.Cond)
+				}
+				howExit = "the loop is also left on " + cond + " at " + p.Pos(p.InstrPos(lastInstr(c))) + ": values behind that point never enter the index"
+			}
+		}
+	}
+	r.Add("C13.index", fname, "the loop that fills the index stops only when the filter's bit stream is exhausted (or fails)", p.InstrPos(h.Instrs[0]), okExit, howExit)
+	// (b) every successful read inserts
+	okIns, howIns, nSucc := true, "from every 'read succeeded' edge the insertion is reached before the next iteration", 0
+	for c := range inLoop {
+		iff, ok := lastInstr(c).(*ssa.If)
+		if !ok || !errCond(iff.Cond) {
+			continue
+		}
+		cd := Cond{V: iff.Cond, Truth: true, At: c}
+		bo, truth, isB := condBinOp(cd)
+		if !isB || !(isNilConst(bo.X) || isNilConst(bo.Y)) {
+			continue
+		}
+		// edge on which err == nil
+		succ := c.Succs[0]
+		if (bo.Op == token.EQL) != truth {
+			succ = c.Succs[1]
+		}
+		nSucc++
+		if succ == B {
+			continue
+		}
+		if reachableFrom(succ, map[*ssa.BasicBlock]bool{B: true})[h] {
+			okIns, howIns = false, "a value that was read successfully can reach the next iteration (or the end of the loop body) without being inserted"
+		}
+	}
+	if nSucc == 0 {
+		r.Undecided("C13.index", fname, "every value read from the filter enters the index", mu.Pos(), "no 'err == nil' test of the reader's result found in the filling loop")
+		return
+	}
+	r.Add("C13.index", fname, "every value read from the filter enters the index", mu.Pos(), okIns, howIns)
 }
